@@ -106,6 +106,10 @@ func init() {
 			{ID: "c0", In: []Label{{"a", 2, ""}}, Out: []Label{{"a", 3, ""}}},
 			{ID: "c0", In: []Label{{"", 2, ""}}, Out: []Label{{"a", TI, ""}}},
 			{ID: "c0", In: []Label{{"", TI, ""}}, Out: []Label{{"", 0, ""}}},
+			// a converter declared to return a *different* interface that implements the
+			// required one (no concrete implementation otherwise available)
+			{ID: "c0", In: []Label{{"", 2, ""}}, Out: []Label{{"", TI2, ""}}},
+			{ID: "c0", In: []Label{{"a", 2, ""}}, Out: []Label{{"a", TI2, ""}}},
 		}
 		for _, p := range params {
 			for _, in := range subsetsUpTo(len(ins), 2) {
